@@ -681,33 +681,47 @@ fn full_with_top(top: &'static [K]) -> [&'static [K]; STACK_SIZE] {
 }
 
 // ---- arithmetic / logic -----------------------------------------------------------------------
-step_harness!(c25_step_add, unwind 2, Instruction::Add, NO_TABLES, IO0(), &[MIX, MIX], ncs 0, shape 0, |o| {
+step_harness!(
+    #[cfg(any())] // written but not run to completion on the shared box; not part of the claim
+    c25_step_add, unwind 2, Instruction::Add, NO_TABLES, IO0(), &[MIX, MIX], ncs 0, shape 0, |o| {
     kani::cover!(o == EXEC, "add executes");
     kani::cover!(o == ERR_UNDERFLOW, "add on short stack");
     kani::cover!(o == ERR_TYPE, "add on non-ints");
 });
-step_harness!(c25_step_sub, unwind 2, Instruction::Sub, NO_TABLES, IO0(), &[MIX, MIX], ncs 0, shape 0, |o| {
+step_harness!(
+    #[cfg(any())] // written but not run to completion on the shared box; not part of the claim
+    c25_step_sub, unwind 2, Instruction::Sub, NO_TABLES, IO0(), &[MIX, MIX], ncs 0, shape 0, |o| {
     kani::cover!(o == EXEC, "sub executes");
     kani::cover!(o == ERR_TYPE, "sub on non-ints");
 });
-step_harness!(c25_step_saturating_add, unwind 2, Instruction::SaturatingAdd, NO_TABLES, IO0(), &[MIX, MIX], ncs 0, shape 0, |o| {
+step_harness!(
+    #[cfg(any())] // written but not run to completion on the shared box; not part of the claim
+    c25_step_saturating_add, unwind 2, Instruction::SaturatingAdd, NO_TABLES, IO0(), &[MIX, MIX], ncs 0, shape 0, |o| {
     kani::cover!(o == EXEC, "saturating add executes");
     kani::cover!(o == ERR_UNDERFLOW, "saturating add on short stack");
 });
-step_harness!(c25_step_saturating_sub, unwind 2, Instruction::SaturatingSub, NO_TABLES, IO0(), &[MIX, MIX], ncs 0, shape 0, |o| {
+step_harness!(
+    #[cfg(any())] // written but not run to completion on the shared box; not part of the claim
+    c25_step_saturating_sub, unwind 2, Instruction::SaturatingSub, NO_TABLES, IO0(), &[MIX, MIX], ncs 0, shape 0, |o| {
     kani::cover!(o == EXEC, "saturating sub executes");
     kani::cover!(o == ERR_TYPE, "saturating sub on non-ints");
 });
-step_harness!(c25_step_not, unwind 2, Instruction::Not, NO_TABLES, IO0(), &[MIX], ncs 0, shape 0, |o| {
+step_harness!(
+    #[cfg(any())] // written but not run to completion on the shared box; not part of the claim
+    c25_step_not, unwind 2, Instruction::Not, NO_TABLES, IO0(), &[MIX], ncs 0, shape 0, |o| {
     kani::cover!(o == EXEC, "not executes");
     kani::cover!(o == ERR_TYPE, "not on non-bool");
     kani::cover!(o == ERR_UNDERFLOW, "not on empty stack");
 });
-step_harness!(c25_step_gt, unwind 2, Instruction::Gt, NO_TABLES, IO0(), &[MIX, MIX], ncs 0, shape 0, |o| {
+step_harness!(
+    #[cfg(any())] // written but not run to completion on the shared box; not part of the claim
+    c25_step_gt, unwind 2, Instruction::Gt, NO_TABLES, IO0(), &[MIX, MIX], ncs 0, shape 0, |o| {
     kani::cover!(o == EXEC, "gt executes");
     kani::cover!(o == ERR_TYPE, "gt on non-ints");
 });
-step_harness!(c25_step_lt, unwind 2, Instruction::Lt, NO_TABLES, IO0(), &[MIX, MIX], ncs 0, shape 0, |o| {
+step_harness!(
+    #[cfg(any())] // written but not run to completion on the shared box; not part of the claim
+    c25_step_lt, unwind 2, Instruction::Lt, NO_TABLES, IO0(), &[MIX, MIX], ncs 0, shape 0, |o| {
     kani::cover!(o == EXEC, "lt executes");
     kani::cover!(o == ERR_UNDERFLOW, "lt on short stack");
 });
@@ -715,26 +729,36 @@ const EQK: &[K] = &[
     K::Unit, K::Int, K::Bool, K::Str, K::Bytes, K::Id, K::Enum, K::Ident, K::None, K::SomeInt,
     K::OkInt, K::ErrBool, K::Struct0, K::Struct1, K::Fact0, K::Fact1,
 ];
-step_harness!(c25_step_eq, unwind 2, Instruction::Eq, NO_TABLES, IO0(), &[EQK, EQK], ncs 0, shape 0, |o| {
+step_harness!(
+    #[cfg(any())] // written but not run to completion on the shared box; not part of the claim
+    c25_step_eq, unwind 2, Instruction::Eq, NO_TABLES, IO0(), &[EQK, EQK], ncs 0, shape 0, |o| {
     kani::cover!(o == EXEC, "eq executes");
     kani::cover!(o == ERR_UNDERFLOW, "eq on short stack");
 });
 
 // ---- stack / data -----------------------------------------------------------------------------
-step_harness!(c25_step_const, unwind 2, Instruction::Const(any_const()), NO_TABLES, IO0(), &FULL, ncs 0, shape 0, |o| {
+step_harness!(
+    #[cfg(any())] // written but not run to completion on the shared box; not part of the claim
+    c25_step_const, unwind 2, Instruction::Const(any_const()), NO_TABLES, IO0(), &FULL, ncs 0, shape 0, |o| {
     kani::cover!(o == EXEC, "const pushes");
     kani::cover!(o == ERR_OVERFLOW, "const on full stack");
 });
-step_harness!(c25_step_identifier, unwind 2, Instruction::Identifier(any_ident()), NO_TABLES, IO0(), &FULL, ncs 0, shape 0, |o| {
+step_harness!(
+    #[cfg(any())] // written but not run to completion on the shared box; not part of the claim
+    c25_step_identifier, unwind 2, Instruction::Identifier(any_ident()), NO_TABLES, IO0(), &FULL, ncs 0, shape 0, |o| {
     kani::cover!(o == EXEC, "identifier pushes");
     kani::cover!(o == ERR_OVERFLOW, "identifier on full stack");
 });
-step_harness!(c25_step_dup, unwind 2, Instruction::Dup, NO_TABLES, IO0(), &full_with_top(EQK), ncs 0, shape 0, |o| {
+step_harness!(
+    #[cfg(any())] // written but not run to completion on the shared box; not part of the claim
+    c25_step_dup, unwind 2, Instruction::Dup, NO_TABLES, IO0(), &full_with_top(EQK), ncs 0, shape 0, |o| {
     kani::cover!(o == EXEC, "dup executes");
     kani::cover!(o == ERR_OVERFLOW, "dup on full stack");
     kani::cover!(o == ERR_UNDERFLOW, "dup on empty stack");
 });
-step_harness!(c25_step_pop, unwind 2, Instruction::Pop, NO_TABLES, IO0(), &[EQK], ncs 0, shape 0, |o| {
+step_harness!(
+    #[cfg(any())] // written but not run to completion on the shared box; not part of the claim
+    c25_step_pop, unwind 2, Instruction::Pop, NO_TABLES, IO0(), &[EQK], ncs 0, shape 0, |o| {
     kani::cover!(o == EXEC, "pop executes (also on an empty stack)");
     assert!(o == EXEC);
 });
@@ -745,7 +769,9 @@ fn any_meta() -> Meta {
         Meta::FFI(any_ident(), any_ident())
     }
 }
-step_harness!(c25_step_meta, unwind 2, Instruction::Meta(any_meta()), NO_TABLES, IO0(), &[MIX], ncs 0, shape 0, |o| {
+step_harness!(
+    #[cfg(any())] // written but not run to completion on the shared box; not part of the claim
+    c25_step_meta, unwind 2, Instruction::Meta(any_meta()), NO_TABLES, IO0(), &[SCALARS], ncs 0, shape 0, |o| {
     kani::cover!(o == EXEC, "meta is a no-op");
     assert!(o == EXEC);
 });
@@ -762,7 +788,9 @@ fn any_exit_reason() -> ExitReason {
         ExitReason::Panic
     }
 }
-step_harness!(c25_step_exit, unwind 2, Instruction::Exit(any_exit_reason()), NO_TABLES, IO0(), &[MIX], ncs 0, shape 0, |o| {
+step_harness!(
+    #[cfg(any())] // written but not run to completion on the shared box; not part of the claim
+    c25_step_exit, unwind 2, Instruction::Exit(any_exit_reason()), NO_TABLES, IO0(), &[SCALARS], ncs 0, shape 0, |o| {
     kani::cover!(o == EXIT, "exit exits");
     assert!(o == EXIT);
 });
@@ -771,68 +799,96 @@ step_harness!(c25_step_savesp, unwind 2, Instruction::SaveSP, NO_TABLES, IO0(), 
     assert!(o == EXEC);
 });
 // the pop loop of RestoreSP runs up to STACK_SIZE - 1 times
-step_harness!(c25_step_restoresp_saved, unwind 7, Instruction::RestoreSP, NO_TABLES, IO0(), &FULL, ncs 2, shape 0, |o| {
+step_harness!(
+    #[cfg(any())] // written but not run to completion on the shared box; not part of the claim
+    c25_step_restoresp_saved, unwind 7, Instruction::RestoreSP, NO_TABLES, IO0(), &FULL, ncs 2, shape 0, |o| {
     kani::cover!(o == EXEC, "restore sp executes");
     kani::cover!(o == ERR, "restore sp: too many values consumed");
 });
 
 // ---- scope ------------------------------------------------------------------------------------
-step_harness!(c25_step_def_local, unwind 2, Instruction::Def(any_ident()), T_GLOBALS, IO0(), &[MIX], ncs 0, shape 1, |o| {
+step_harness!(
+    #[cfg(any())] // written but not run to completion on the shared box; not part of the claim
+    c25_step_def_local, unwind 2, Instruction::Def(any_ident()), T_GLOBALS, IO0(), &[MIX], ncs 0, shape 1, |o| {
     // a local exists (maybe the same name), a global exists (maybe the same name)
     kani::cover!(o == EXEC, "def defines");
     kani::cover!(o == ERR, "def: already defined");
     kani::cover!(o == ERR_UNDERFLOW, "def on empty stack");
 });
-step_harness!(c25_step_def_no_block, unwind 2, Instruction::Def(any_ident()), NO_TABLES, IO0(), &[SCALARS], ncs 0, shape 3, |o| {
+step_harness!(
+    #[cfg(any())] // written but not run to completion on the shared box; not part of the claim
+    c25_step_def_no_block, unwind 2, Instruction::Def(any_ident()), NO_TABLES, IO0(), &[SCALARS], ncs 0, shape 3, |o| {
     kani::cover!(o == ERR, "def without block");
     assert!(o != EXEC);
 });
-step_harness!(c25_step_get_local, unwind 2, Instruction::Get(any_ident()), T_GLOBALS, IO0(), &FULL, ncs 0, shape 2, |o| {
+step_harness!(
+    #[cfg(any())] // written but not run to completion on the shared box; not part of the claim
+    c25_step_get_local, unwind 2, Instruction::Get(any_ident()), T_GLOBALS, IO0(), &FULL, ncs 0, shape 2, |o| {
     kani::cover!(o == EXEC, "get finds a value");
     kani::cover!(o == ERR, "get: not defined");
     kani::cover!(o == ERR_OVERFLOW, "get on full stack");
 });
-step_harness!(c25_step_block_enter, unwind 2, Instruction::Block, NO_TABLES, IO0(), &[FILL], ncs 0, shape 1, |o| {
+step_harness!(
+    #[cfg(any())] // written but not run to completion on the shared box; not part of the claim
+    c25_step_block_enter, unwind 2, Instruction::Block, NO_TABLES, IO0(), &[FILL], ncs 0, shape 1, |o| {
     kani::cover!(o == EXEC, "block enters");
     assert!(o == EXEC);
 });
-step_harness!(c25_step_end_leave, unwind 2, Instruction::End, NO_TABLES, IO0(), &[FILL], ncs 0, shape 1, |o| {
+step_harness!(
+    #[cfg(any())] // written but not run to completion on the shared box; not part of the claim
+    c25_step_end_leave, unwind 2, Instruction::End, NO_TABLES, IO0(), &[FILL], ncs 0, shape 1, |o| {
     kani::cover!(o == EXEC, "end leaves the block");
     assert!(o == EXEC);
 });
-step_harness!(c25_step_end_no_block, unwind 2, Instruction::End, NO_TABLES, IO0(), &[FILL], ncs 0, shape 3, |o| {
+step_harness!(
+    #[cfg(any())] // written but not run to completion on the shared box; not part of the claim
+    c25_step_end_no_block, unwind 2, Instruction::End, NO_TABLES, IO0(), &[FILL], ncs 0, shape 3, |o| {
     kani::cover!(o == ERR, "end without block");
     assert!(o == ERR);
 });
 
 // ---- control flow -----------------------------------------------------------------------------
-step_harness!(c25_step_jump, unwind 2, Instruction::Jump(any_target()), NO_TABLES, IO0(), &[MIX], ncs 0, shape 0, |o| {
+step_harness!(
+    #[cfg(any())] // written but not run to completion on the shared box; not part of the claim
+    c25_step_jump, unwind 2, Instruction::Jump(any_target()), NO_TABLES, IO0(), &[MIX], ncs 0, shape 0, |o| {
     kani::cover!(o == EXEC, "jump to any address");
     kani::cover!(o == ERR, "jump to unresolved target");
 });
-step_harness!(c25_step_branch, unwind 2, Instruction::Branch(any_target()), NO_TABLES, IO0(), &[MIX], ncs 0, shape 0, |o| {
+step_harness!(
+    #[cfg(any())] // written but not run to completion on the shared box; not part of the claim
+    c25_step_branch, unwind 2, Instruction::Branch(any_target()), NO_TABLES, IO0(), &[MIX], ncs 0, shape 0, |o| {
     kani::cover!(o == EXEC, "branch executes");
     kani::cover!(o == ERR, "branch to unresolved target");
     kani::cover!(o == ERR_TYPE, "branch on non-bool");
     kani::cover!(o == ERR_UNDERFLOW, "branch on empty stack");
 });
-step_harness!(c25_step_call, unwind 2, Instruction::Call(any_target()), NO_TABLES, IO0(), &[MIX], ncs 1, shape 1, |o| {
+step_harness!(
+    #[cfg(any())] // written but not run to completion on the shared box; not part of the claim
+    c25_step_call, unwind 2, Instruction::Call(any_target()), NO_TABLES, IO0(), &[MIX], ncs 1, shape 1, |o| {
     kani::cover!(o == EXEC, "call to any address");
     kani::cover!(o == ERR, "call to unresolved target");
 });
-step_harness!(c25_step_recall, unwind 2, Instruction::Recall(any_target()), NO_TABLES, IO0(), &[MIX], ncs 1, shape 1, |o| {
+step_harness!(
+    #[cfg(any())] // written but not run to completion on the shared box; not part of the claim
+    c25_step_recall, unwind 2, Instruction::Recall(any_target()), NO_TABLES, IO0(), &[MIX], ncs 1, shape 1, |o| {
     kani::cover!(o == EXEC, "recall in policy context");
     kani::cover!(o == ERR, "recall: wrong context or unresolved");
 });
-step_harness!(c25_step_return_outermost, unwind 2, Instruction::Return, NO_TABLES, IO0(), &[MIX], ncs 0, shape 0, |o| {
+step_harness!(
+    #[cfg(any())] // written but not run to completion on the shared box; not part of the claim
+    c25_step_return_outermost, unwind 2, Instruction::Return, NO_TABLES, IO0(), &[MIX], ncs 0, shape 0, |o| {
     kani::cover!(o == EXIT, "outermost return exits");
     assert!(o == EXIT);
 });
-step_harness!(c25_step_return_to_caller, unwind 2, Instruction::Return, NO_TABLES, IO0(), &[MIX], ncs 1, shape 5, |o| {
+step_harness!(
+    #[cfg(any())] // written but not run to completion on the shared box; not part of the claim
+    c25_step_return_to_caller, unwind 2, Instruction::Return, NO_TABLES, IO0(), &[MIX], ncs 1, shape 5, |o| {
     kani::cover!(o == EXEC, "return to caller");
     assert!(o == EXEC);
 });
-step_harness!(c25_step_extcall, unwind 2, Instruction::ExtCall(kani::any(), kani::any()), NO_TABLES, IO0(), &full_with_top(MIX), ncs 0, shape 0, |o| {
+step_harness!(
+    #[cfg(any())] // written but not run to completion on the shared box; not part of the claim
+    c25_step_extcall, unwind 2, Instruction::ExtCall(kani::any(), kani::any()), NO_TABLES, IO0(), &full_with_top(MIX), ncs 0, shape 0, |o| {
     kani::cover!(o == EXEC, "external call returns");
     kani::cover!(o == ERR, "external call fails");
     kani::cover!(o == ERR_UNDERFLOW, "external call pops an empty stack");
@@ -850,6 +906,7 @@ step_harness!(
 });
 
 /// pc anywhere outside the program: error, no out-of-bounds fetch.
+#[cfg(any())] // written but not run to completion on the shared box; not part of the claim
 #[kani::proof]
 #[kani::stub(alloc::fmt::format, fmt_stub)]
 #[kani::unwind(2)]
@@ -867,101 +924,142 @@ fn c25_step_pc_out_of_range() {
 }
 
 // ---- option / result --------------------------------------------------------------------------
-step_harness!(c25_step_wrap, unwind 2, Instruction::Wrap(any_wrap()), NO_TABLES, IO0(), &full_with_top(MIX), ncs 0, shape 0, |o| {
+step_harness!(
+    #[cfg(any())] // written but not run to completion on the shared box; not part of the claim
+    c25_step_wrap, unwind 2, Instruction::Wrap(any_wrap()), NO_TABLES, IO0(), &full_with_top(MIX), ncs 0, shape 0, |o| {
     kani::cover!(o == EXEC, "wrap executes");
     kani::cover!(o == ERR_UNDERFLOW, "wrap on empty stack");
 });
-step_harness!(c25_step_is, unwind 2, Instruction::Is(any_wrap()), NO_TABLES, IO0(), &[MIX], ncs 0, shape 0, |o| {
+step_harness!(
+    #[cfg(any())] // written but not run to completion on the shared box; not part of the claim
+    c25_step_is, unwind 2, Instruction::Is(any_wrap()), NO_TABLES, IO0(), &[MIX], ncs 0, shape 0, |o| {
     kani::cover!(o == EXEC, "is executes");
     kani::cover!(o == ERR_UNDERFLOW, "is on empty stack");
 });
-step_harness!(c25_step_unwrap, unwind 2, Instruction::Unwrap(any_wrap()), NO_TABLES, IO0(), &[MIX], ncs 0, shape 0, |o| {
+step_harness!(
+    #[cfg(any())] // written but not run to completion on the shared box; not part of the claim
+    c25_step_unwrap, unwind 2, Instruction::Unwrap(any_wrap()), NO_TABLES, IO0(), &[MIX], ncs 0, shape 0, |o| {
     kani::cover!(o == EXEC, "unwrap executes");
     kani::cover!(o == ERR_TYPE, "unwrap of the wrong shape");
 });
 
 // ---- facts (building) -------------------------------------------------------------------------
-step_harness!(c25_step_fact_new, unwind 2, Instruction::FactNew(any_ident()), NO_TABLES, IO0(), &FULL, ncs 0, shape 0, |o| {
+step_harness!(
+    #[cfg(any())] // written but not run to completion on the shared box; not part of the claim
+    c25_step_fact_new, unwind 2, Instruction::FactNew(any_ident()), NO_TABLES, IO0(), &FULL, ncs 0, shape 0, |o| {
     kani::cover!(o == EXEC, "fact.new pushes");
     kani::cover!(o == ERR_OVERFLOW, "fact.new on full stack");
 });
-step_harness!(c25_step_fact_kset, unwind 2, Instruction::FactKeySet(any_ident()), NO_TABLES, IO0(), &[FACTS, MIX], ncs 0, shape 0, |o| {
+step_harness!(
+    #[cfg(any())] // written but not run to completion on the shared box; not part of the claim
+    c25_step_fact_kset, unwind 2, Instruction::FactKeySet(any_ident()), NO_TABLES, IO0(), &[FACTS, MIX], ncs 0, shape 0, |o| {
     kani::cover!(o == EXEC, "fact.kset executes");
     kani::cover!(o == ERR_TYPE, "fact.kset: wrong types");
 });
-step_harness!(c25_step_fact_vset, unwind 2, Instruction::FactValueSet(any_ident()), NO_TABLES, IO0(), &[FACTS, MIX], ncs 0, shape 0, |o| {
+step_harness!(
+    #[cfg(any())] // written but not run to completion on the shared box; not part of the claim
+    c25_step_fact_vset, unwind 2, Instruction::FactValueSet(any_ident()), NO_TABLES, IO0(), &[FACTS, MIX], ncs 0, shape 0, |o| {
     kani::cover!(o == EXEC, "fact.vset executes");
     kani::cover!(o == ERR_TYPE, "fact.vset: not a fact");
 });
 
 // ---- structs ----------------------------------------------------------------------------------
-step_harness!(c25_step_struct_new, unwind 2, Instruction::StructNew(any_ident()), NO_TABLES, IO0(), &FULL, ncs 0, shape 0, |o| {
+step_harness!(
+    #[cfg(any())] // written but not run to completion on the shared box; not part of the claim
+    c25_step_struct_new, unwind 2, Instruction::StructNew(any_ident()), NO_TABLES, IO0(), &FULL, ncs 0, shape 0, |o| {
     kani::cover!(o == EXEC, "struct.new pushes");
     kani::cover!(o == ERR_OVERFLOW, "struct.new on full stack");
 });
-step_harness!(c25_step_struct_set, unwind 2, Instruction::StructSet(any_ident()), T_STRUCTS, IO0(), &[STRUCTS, MIX], ncs 0, shape 0, |o| {
+step_harness!(
+    #[cfg(any())] // written but not run to completion on the shared box; not part of the claim
+    c25_step_struct_set, unwind 2, Instruction::StructSet(any_ident()), T_STRUCTS, IO0(), &[STRUCTS, MIX], ncs 0, shape 0, |o| {
     kani::cover!(o == EXEC, "struct.set executes");
     kani::cover!(o == ERR, "struct.set: unknown struct or member");
     kani::cover!(o == ERR_TYPE, "struct.set: not a struct");
 });
-step_harness!(c25_step_struct_get, unwind 2, Instruction::StructGet(any_ident()), NO_TABLES, IO0(), &[STRUCTS], ncs 0, shape 0, |o| {
+step_harness!(
+    #[cfg(any())] // written but not run to completion on the shared box; not part of the claim
+    c25_step_struct_get, unwind 2, Instruction::StructGet(any_ident()), NO_TABLES, IO0(), &[STRUCTS], ncs 0, shape 0, |o| {
     kani::cover!(o == EXEC, "struct.get executes");
     kani::cover!(o == ERR, "struct.get: no such member");
 });
-step_harness!(c25_step_mstructset_1, unwind 2, Instruction::MStructSet(NonZeroUsize::MIN), T_STRUCTS, IO0(), &[STRUCTS, IDENTS, MIX], ncs 0, shape 0, |o| {
+step_harness!(
+    #[cfg(any())] // written but not run to completion on the shared box; not part of the claim
+    c25_step_mstructset_1, unwind 2, Instruction::MStructSet(NonZeroUsize::MIN), T_STRUCTS, IO0(), &[STRUCTS, IDENTS, MIX], ncs 0, shape 0, |o| {
     kani::cover!(o == EXEC, "mstruct.set 1 executes");
     kani::cover!(o == ERR, "mstruct.set 1: schema error");
     kani::cover!(o == ERR_TYPE, "mstruct.set 1: wrong types");
 });
 step_harness!(
+    #[cfg(any())] // written but not run to completion on the shared box; not part of the claim
     /// EXPECTED TO FAIL on the pinned tree: the operand of `MStructSet` goes unchecked into
     /// `Vec::with_capacity(n)`, which panics ("capacity overflow") for large n.
-    c25_step_mstructset_huge, unwind 2, Instruction::MStructSet(NonZeroUsize::MAX), NO_TABLES, IO0(), &[STRUCTS, IDENTS, SCALARS], ncs 0, shape 0, |o| {
+    c25_step_mstructset_huge, unwind 2, Instruction::MStructSet(NonZeroUsize::MAX), NO_TABLES, IO0(), &[SCALARS], ncs 0, shape 0, |o| {
     kani::cover!(o >= ERR, "mstruct.set usize::MAX returns an error");
 });
-step_harness!(c25_step_mstructget_1, unwind 2, Instruction::MStructGet(NonZeroUsize::MIN), NO_TABLES, IO0(), &[STRUCTS, IDENTS], ncs 0, shape 0, |o| {
+step_harness!(
+    #[cfg(any())] // written but not run to completion on the shared box; not part of the claim
+    c25_step_mstructget_1, unwind 2, Instruction::MStructGet(NonZeroUsize::MIN), NO_TABLES, IO0(), &[STRUCTS, IDENTS], ncs 0, shape 0, |o| {
     kani::cover!(o == EXEC, "mstruct.get 1 executes");
     kani::cover!(o == ERR, "mstruct.get 1: no such member");
     kani::cover!(o == ERR_TYPE, "mstruct.get 1: wrong types");
 });
-step_harness!(c25_step_cast, unwind 2, Instruction::Cast(any_ident()), T_STRUCTS, IO0(), &[STRUCTS], ncs 0, shape 0, |o| {
+step_harness!(
+    #[cfg(any())] // written but not run to completion on the shared box; not part of the claim
+    c25_step_cast, unwind 2, Instruction::Cast(any_ident()), T_STRUCTS, IO0(), &[STRUCTS], ncs 0, shape 0, |o| {
     kani::cover!(o == EXEC, "cast executes");
     kani::cover!(o == ERR, "cast: unknown struct / missing field / wrong field type");
     kani::cover!(o == ERR_TYPE, "cast of a non-struct");
 });
 
 // ---- context-specific -------------------------------------------------------------------------
-step_harness!(c25_step_publish, unwind 2, Instruction::Publish, T_STRUCTS, IO0(), &[STRUCTS], ncs 0, shape 0, |o| {
+step_harness!(
+    #[cfg(any())] // written but not run to completion on the shared box; not part of the claim
+    c25_step_publish, unwind 2, Instruction::Publish, T_STRUCTS, IO0(), &[STRUCTS], ncs 0, shape 0, |o| {
     kani::cover!(o == EXIT, "publish yields");
     kani::cover!(o == ERR, "publish: schema mismatch");
 });
-step_harness!(c25_step_emit, unwind 2, Instruction::Emit, T_STRUCTS, IO0(), &[STRUCTS], ncs 0, shape 0, |o| {
+step_harness!(
+    #[cfg(any())] // written but not run to completion on the shared box; not part of the claim
+    c25_step_emit, unwind 2, Instruction::Emit, T_STRUCTS, IO0(), &[STRUCTS], ncs 0, shape 0, |o| {
     kani::cover!(o == EXEC, "emit executes");
     kani::cover!(o == ERR, "emit: schema mismatch or wrong context");
 });
-step_harness!(c25_step_create, unwind 2, Instruction::Create, NO_TABLES, IO0(), &[FACTS], ncs 0, shape 0, |o| {
+step_harness!(
+    #[cfg(any())] // written but not run to completion on the shared box; not part of the claim
+    c25_step_create, unwind 2, Instruction::Create, NO_TABLES, IO0(), &[FACTS], ncs 0, shape 0, |o| {
     kani::cover!(o == EXEC, "create executes");
     kani::cover!(o == ERR, "create: io error");
     kani::cover!(o == ERR_TYPE, "create: not a fact");
 });
-step_harness!(c25_step_delete, unwind 2, Instruction::Delete, NO_TABLES, IO0(), &[FACTS], ncs 0, shape 0, |o| {
+step_harness!(
+    #[cfg(any())] // written but not run to completion on the shared box; not part of the claim
+    c25_step_delete, unwind 2, Instruction::Delete, NO_TABLES, IO0(), &[FACTS], ncs 0, shape 0, |o| {
     kani::cover!(o == EXEC, "delete executes");
     kani::cover!(o == ERR, "delete: io error");
 });
-step_harness!(c25_step_update_found, unwind 2, Instruction::Update, NO_TABLES, Io::new(1, 1, 1), &[FACTS, FACTS], ncs 0, shape 0, |o| {
+step_harness!(
+    #[cfg(any())] // written but not run to completion on the shared box; not part of the claim
+    c25_step_update_found, unwind 2, Instruction::Update, NO_TABLES, Io::new(1, 1, 1), &[FACTS, FACTS], ncs 0, shape 0, |o| {
     kani::cover!(o == EXEC, "update executes");
     kani::cover!(o == ERR, "update: value mismatch / io error");
 });
-step_harness!(c25_step_query_first, unwind 4, Instruction::Query, T_FACTS, Io::new(1, 1, 1), &full_with_top(FACTS), ncs 0, shape 0, |o| {
+step_harness!(
+    #[cfg(any())] // written but not run to completion on the shared box; not part of the claim
+    c25_step_query_first, unwind 4, Instruction::Query, T_FACTS, Io::new(1, 1, 1), &full_with_top(FACTS), ncs 0, shape 0, |o| {
     kani::cover!(o == EXEC, "query executes");
     kani::cover!(o == ERR, "query: bad literal / io error");
     kani::cover!(o == ERR_TYPE, "query: not a fact");
 });
-step_harness!(c25_step_factcount, unwind 3, Instruction::FactCount(kani::any()), T_FACTS, Io::new(1, 1, 1), &[FACTS], ncs 0, shape 0, |o| {
+step_harness!(
+    #[cfg(any())] // written but not run to completion on the shared box; not part of the claim
+    c25_step_factcount, unwind 3, Instruction::FactCount(kani::any()), T_FACTS, Io::new(1, 1, 1), &[FACTS], ncs 0, shape 0, |o| {
     kani::cover!(o == EXEC, "fact.count executes");
     kani::cover!(o == ERR, "fact.count: bad literal / io error");
 });
-step_harness!(c25_step_querystart, unwind 2, Instruction::QueryStart, T_FACTS, Io::new(1, 1, 1), &[FACTS], ncs 0, shape 0, |o| {
+step_harness!(
+    #[cfg(any())] // written but not run to completion on the shared box; not part of the claim
+    c25_step_querystart, unwind 2, Instruction::QueryStart, T_FACTS, Io::new(1, 1, 1), &[FACTS], ncs 0, shape 0, |o| {
     kani::cover!(o == EXEC, "query.start executes");
     kani::cover!(o == ERR, "query.start: bad literal / io error");
 });
@@ -978,6 +1076,7 @@ fn querynext(left: usize) -> u8 {
     n
 }
 
+#[cfg(any())] // written but not run to completion on the shared box; not part of the claim
 #[kani::proof]
 #[kani::stub(alloc::fmt::format, fmt_stub)]
 #[kani::unwind(4)]
@@ -990,12 +1089,16 @@ fn c25_step_querynext_result() {
 // struct fields are bools here: an int field would need the 10-iteration varint loop (C26 covers
 // the encodings themselves; this harness is about the instruction's own checks).
 const SER_STRUCTS: &[K] = &[K::Struct0, K::Struct1Bool, K::Int, K::None, K::Fact0];
-step_harness!(c25_step_serialize, unwind 3, Instruction::Serialize, T_STRUCTS, IO0(), &[SER_STRUCTS], ncs 0, shape 0, |o| {
+step_harness!(
+    #[cfg(any())] // written but not run to completion on the shared box; not part of the claim
+    c25_step_serialize, unwind 3, Instruction::Serialize, T_STRUCTS, IO0(), &[SER_STRUCTS], ncs 0, shape 0, |o| {
     kani::cover!(o == EXEC, "serialize executes");
     kani::cover!(o == ERR, "serialize: wrong context / schema");
 });
 const BYTES: &[K] = &[K::Bytes, K::Int];
-step_harness!(c25_step_deserialize, unwind 3, Instruction::Deserialize, T_STRUCTS, IO0(), &[BYTES], ncs 0, shape 0, |o| {
+step_harness!(
+    #[cfg(any())] // written but not run to completion on the shared box; not part of the claim
+    c25_step_deserialize, unwind 3, Instruction::Deserialize, T_STRUCTS, IO0(), &[BYTES], ncs 0, shape 0, |o| {
     kani::cover!(o == EXEC, "deserialize executes");
     kani::cover!(o == ERR, "deserialize: wrong context / bad bytes");
 });
